@@ -6,8 +6,10 @@ package main
 
 import (
 	"bufio"
+	"bytes"
 	"encoding/json"
 	"fmt"
+	"io"
 	"os"
 	"path/filepath"
 	"strconv"
@@ -17,6 +19,7 @@ import (
 	"github.com/openGemini/openGemini/app/ts-meta/meta"
 	"github.com/openGemini/openGemini/lib/config"
 	meta2 "github.com/openGemini/openGemini/lib/util/lifted/influx/meta"
+	proto2 "github.com/openGemini/openGemini/lib/util/lifted/influx/meta/proto"
 	"go.uber.org/zap"
 	"verifharness/internal/gen"
 	"verifharness/internal/metacmd"
@@ -62,8 +65,34 @@ func newWorld(name string, modelled bool, ptper int, sclean bool) *World {
 	return w
 }
 
+type bufSink struct{ bytes.Buffer }
+
+func (s *bufSink) Close() error  { return nil }
+func (s *bufSink) ID() string    { return "verif" }
+func (s *bufSink) Cancel() error { return nil }
+
+// restore: what a meta restart or a follower's snapshot install does - storeFSM.Snapshot (clone), Persist (marshal),
+// storeFSM.Restore (unmarshal) - replaces the whole catalogue by its persisted form
+func (w *World) restore() int {
+	snap, err := w.fsm.Snapshot()
+	if err != nil {
+		return 1
+	}
+	sink := &bufSink{}
+	if err := snap.Persist(sink); err != nil {
+		return 1
+	}
+	if err := w.fsm.Restore(io.NopCloser(bytes.NewReader(sink.Bytes()))); err != nil {
+		return 1
+	}
+	return 0
+}
+
 func (w *World) exec(c Cmd) (res int) {
-	pc := metacmd.Build(&c)
+	var pc *proto2.Command
+	if c.K != "restore" {
+		pc = metacmd.Build(&c)
+	}
 	func() {
 		defer func() {
 			if r := recover(); r != nil {
@@ -71,6 +100,10 @@ func (w *World) exec(c Cmd) (res int) {
 				res = 2
 			}
 		}()
+		if c.K == "restore" {
+			res = w.restore()
+			return
+		}
 		if r := w.fsm.ExecuteCmd(pc); r != nil {
 			res = 1
 		}
@@ -119,7 +152,11 @@ func pickTS(r *gen.Rand, w *World) int64 {
 			}
 		}
 	}
-	switch k := r.Intn(20); {
+	switch k := r.Intn(23); {
+	case k >= 20:
+		// around the Unix epoch: the group spans [-d, 0) and [0, d) and their edges
+		d := []int64{Hour, 2 * Hour, 24 * Hour, 7 * 24 * Hour}[r.Intn(4)]
+		return []int64{0, -1, 1, -d, d - 1, -d - 1, d, d / 2, -d / 2}[r.Intn(9)]
 	case k < 9:
 		return Base + int64(r.Range(-80, 80))*Hour + int64(r.Intn(3)-1)*int64(r.Intn(1000))
 	case k < 14 && len(bounds) > 0:
@@ -264,6 +301,9 @@ func genCmd(r *gen.Rand, w *World, extra bool) Cmd {
 			return Cmd{K: "cmst", DB: p.db, RP: p.rp, M: r.Range(1, 3), X: []string{"otherkey", "schema"}[r.Intn(2)]}
 		}
 	}
+	if r.Chance(1, 22) {
+		return Cmd{K: "restore"}
+	}
 	switch {
 	case k < 6: // node join
 		h := r.Range(1, 4)
@@ -345,10 +385,31 @@ func genCmd(r *gen.Rand, w *World, extra bool) Cmd {
 			p = gen.Pick(r, ready)
 		}
 		eng := 0
-		if r.Chance(1, 6) {
+		if r.Chance(1, 3) {
 			eng = 1
 		}
-		return Cmd{K: "csg", DB: p.db, RP: p.rp, TS: pickTS(r, w), Eng: eng}
+		ts := pickTS(r, w)
+		// often an instant inside an existing group of this policy, for either engine kind
+		if r.Chance(1, 3) {
+			var inside []int64
+			for _, db := range d.DBs {
+				for _, rp := range db.RPs {
+					if code(db.Key) == p.db && (code(rp.Key) == p.rp || p.rp == 0) {
+						for _, g := range rp.SGs {
+							if a, err := strconv.ParseInt(g.Start, 10, 64); err == nil {
+								if b, err := strconv.ParseInt(g.End, 10, 64); err == nil && b > a {
+									inside = append(inside, a, a+(b-a)/2, b-1)
+								}
+							}
+						}
+					}
+				}
+			}
+			if len(inside) > 0 {
+				ts = gen.Pick(r, inside)
+			}
+		}
+		return Cmd{K: "csg", DB: p.db, RP: p.rp, TS: ts, Eng: eng}
 	case k < 87:
 		if len(sgs) > 0 && r.Chance(9, 10) {
 			g := gen.Pick(r, sgs)
@@ -481,6 +542,28 @@ func corpus() []*Case {
 			{K: "markrp", DB: 1, RP: 1},
 			{K: "droprp", DB: 1, RP: 1},
 			{K: "csg", DB: 1, RP: 0, TS: t10},
+		}),
+		// both engine kinds share one sorted group list: a lookup must not stop at a group of the other kind
+		scripted("mixed-engine-kinds-same-span", 2, []Cmd{
+			{K: "cnode", H: 1, T: 1},
+			{K: "cdb", DB: 1, HasRP: true, RP: 1, D: i64(0), SGD: i64(Hour)},
+			{K: "cmst", DB: 1, RP: 1, M: 1},
+			{K: "csg", DB: 1, RP: 1, TS: t10 + 5}, {K: "csg", DB: 1, RP: 1, TS: t10 + 5, Eng: 1},
+			{K: "csg", DB: 1, RP: 1, TS: t10 + 7}, {K: "csg", DB: 1, RP: 1, TS: t10 + 9, Eng: 1},
+			{K: "csg", DB: 1, RP: 1, TS: t10 + Hour, Eng: 1}, {K: "csg", DB: 1, RP: 1, TS: t10 + Hour},
+			{K: "csg", DB: 1, RP: 1, TS: t10 + 11}, {K: "csg", DB: 1, RP: 1, TS: t10 + Hour + 1, Eng: 1},
+			{K: "delsg", DB: 1, RP: 1, ID: 1}, {K: "csg", DB: 1, RP: 1, TS: t10 + 5}, {K: "csg", DB: 1, RP: 1, TS: t10 + 6},
+			{K: "restore"}, {K: "csg", DB: 1, RP: 1, TS: t10 + 6}, {K: "csg", DB: 1, RP: 1, TS: t10 + 6, Eng: 1},
+		}),
+		// groups bordering the Unix epoch survive a snapshot/restore of the catalogue (a stored 0 is the epoch, not year 1)
+		scripted("epoch-groups-through-restore", 1, []Cmd{
+			{K: "cnode", H: 1, T: 1},
+			{K: "cdb", DB: 1, HasRP: true, RP: 1, D: i64(0), SGD: i64(Hour)},
+			{K: "cmst", DB: 1, RP: 1, M: 1},
+			{K: "csg", DB: 1, RP: 1, TS: -1}, {K: "csg", DB: 1, RP: 1, TS: 0}, {K: "csg", DB: 1, RP: 1, TS: Hour},
+			{K: "restore"},
+			{K: "csg", DB: 1, RP: 1, TS: -5}, {K: "csg", DB: 1, RP: 1, TS: 5}, {K: "csg", DB: 1, RP: 1, TS: -Hour - 1},
+			{K: "urp", DB: 1, RP: 1, SGD: i64(24 * Hour)}, {K: "restore"}, {K: "csg", DB: 1, RP: 1, TS: 2 * Hour},
 		}),
 		scripted("witness-ptview-without-database", 1, []Cmd{
 			{K: "cnode", H: 1, T: 1},
